@@ -55,6 +55,9 @@ def run(rep, tier, seed):
          ('Classpath', ['cp exception'], True)],
         [('android', [], False), ('orgpl', [], False), ('gpl with classpath', [], False), ('and more', ['more and'], False)],
         [('gnu gpl', [], False), ('gpl 2.0', [], False), ('gnu gpl 2.0', [], False)],
+        # letters whose case folding is not their lower-casing (stored and scanned words must be normalised alike)
+        [('D-FSL-1.0', ['Lizenz gemäß D-FSL', 'Freie Software (gemäß D-FSL) Lizenz'], False), ('Maß-1.0', [], False), ('mit', [], False),
+         ('ﬁle-lic', ['ſmall print'], True)],
     ]
     tables = fixed + [gen.gen_table(rng, maxn=4) for _ in range(ntab)]
     U = [0, [0, [enc_str('zzq'), 0]]]
